@@ -49,7 +49,7 @@ struct Annot : Profile {
     std::vector<std::string> required_probes() const override
     {
         return {"rewrite-longer", "rewrite-shorter", "desc-with-nul", "many-per-object", "select-all", "annlist", "dfan-put", "dfan-get",
-                "restart", "create-first-in-session"};
+                "restart", "create-first-in-session", "dfan-missing-file"};
     }
 
     Plan generate(Rng &rng, bool thorough, uint64_t) override
@@ -423,8 +423,15 @@ struct Annot : Profile {
                     }
                     ctx.probe("dfan-put");
                 }
-                else if (!s.on_disk[f])
-                    done = false;
+                else if (!s.on_disk[f]) {
+                    // the file does not exist yet: the query fails, and must leave nothing behind that a later call on
+                    // this name (once the file exists) could mistake for its directory of annotations
+                    int32 len = kind == 0 ? DFANgetlablen(path(f).c_str(), ttag, tref) : DFANgetdesclen(path(f).c_str(), ttag, tref);
+                    ctx.st.checks++;
+                    if (len != FAIL)
+                        ctx.fail("set-mismatch", "set-mismatch:dfan-missing-file", strf("DFANget%slen on the missing file %s returns %d", kind ? "desc" : "lab", path(f).c_str(), (int)len));
+                    ctx.probe("dfan-missing-file");
+                }
                 else {
                     int  type = kind == 0 ? 2 : 3;
                     Ann *x    = nullptr;
